@@ -71,7 +71,7 @@ def run(ctx):
         i = out.index("DATA RACE")
         ctx.violation("race:" + vlib.fp(out[i:i + 600].split("\n")[2:6]), "data race under concurrent Resolve/Targets:\n" + out[i:i + 1500], {"output": out[i:i + 4000]})
     # 16 goroutines: race detector only (the unlogged lock steps of 16 goroutines are too many interleavings to validate)
-    rc2, out2 = ctx.go_test("^TestCacheConcurrent$", env={"VH_OUT": ctx.path("conc16.ndjson"), "VH_N": 18 if ctx.quick else 200, "VH_BIGG": "1"}, race=True, timeout=2400)
+    rc2, out2 = ctx.go_test("^TestCacheConcurrent$", env={"VH_OUT": ctx.path("conc16.ndjson"), "VH_N": 48 if ctx.quick else 300, "VH_BIGG": "1"}, race=True, timeout=2400)
     if "DATA RACE" in out2:
         i = out2.index("DATA RACE")
         ctx.violation("race:" + vlib.fp(out2[i:i + 600].split("\n")[2:6]), "data race under concurrent Resolve/Targets (16 goroutines):\n" + out2[i:i + 1500], {"output": out2[i:i + 4000]})
